@@ -5,6 +5,8 @@ pub const ENUM_ATTRS_OK: &[&str] = &[
     "#[logos(error(MyError, my_cb))]", "#[logos(error(MyError, callback = |lex| MyError::at(lex.span())))]", "#[logos(utf8 = false)]",
     "#[logos(utf8 = true)]", "#[logos(crate = my::logos)]", "#[logos(subpattern d = \"[0-9]\")]", "#[logos(subpattern dd = \"(?&d)(?&d)\")]",
     "#[derive(Debug, Clone)]", "#[repr(u8)]", "/// docs", "#[allow(dead_code)]", "#[logos(skip(\"#[^\\n]*\", allow_greedy = true))]",
+    "#[logos(lifetime = none)]", "#[logos(lifetime = 's)]", "#[logos(lifetime = 'a)]", "#[logos(type T = &'s str)]", "#[logos(type T = u32)]",
+    "#[logos(lifetime = none, type T = &'static str)]", "#[logos(extras = &'s [u8])]",
 ];
 pub const ENUM_ATTRS_BAD: &[&str] = &[
     "#[logos]", "#[logos = \"x\"]", "#[logos()]", "#[logos(3)]", "#[logos(\"x\")]", "#[logos(|x| x)]", "#[logos(skip)]", "#[logos(skip = \"a\")]",
